@@ -62,12 +62,12 @@ Print Assumptions stmt_invariant.
 (* a statement after which the checker holds control unreachable never completes normally:
    code the checker skipped as unreachable is never executed *)
 Theorem unreachable_never_reached : forall P, check_prog_certified P = true ->
-  forall s ret st st' en fuel en', check_stmt P true ret st s = Ok st' -> cur st' = None -> env_ok P en st ->
+  forall s ret st st' J en fuel en', check_stmt P true ret st s = Ok (st', J) -> cur st' = None -> env_ok P en st ->
     exec P fuel en s <> Val (Normal en').
 Proof.
-  intros P H s ret st st' en fuel en' Hc Hn He Hx.
-  pose proof (Proofs4.stmt_invariant_holds P (Proofs5.certified_prog_ok P H) fuel s ret st st' en Hc He) as R.
-  rewrite Hx in R. simpl in R. destruct R as [_ R]. rewrite Hn in R. exact R.
+  intros P H s ret st st' J en fuel en' Hc Hn He Hx.
+  pose proof (Proofs4.stmt_invariant_holds P (Proofs5.certified_prog_ok P H) fuel s ret st st' J en Hc He) as R.
+  rewrite Hx in R. simpl in R. destruct R as [[_ R] _]. rewrite Hn in R. exact R.
 Qed.
 Print Assumptions unreachable_never_reached.
 
